@@ -487,8 +487,16 @@ fn vpcc_fields(c: &CodecCfg) -> Option<(u8, u8, u8, u8, u8, u8, bool)> {
 }
 
 fn judge_vp9(h: &Vp9Hdr, order: (u64, u64), t: &mut Tally) {
+    // what follows the header must not matter: compressed data, nothing at all (a header-only
+    // keyframe), or single bytes whose bits look like header flags
+    for (ti, tail) in [&[0x21u8, 0x22, 0x23][..], &[], &[0x04], &[0x0c, 0x0c], &[0xff]].iter().enumerate() {
+        judge_vp9_tail(h, tail, (order.0, order.1 * 8 + ti as u64), t);
+    }
+}
+
+fn judge_vp9_tail(h: &Vp9Hdr, tail: &[u8], order: (u64, u64), t: &mut Tally) {
     let mut frame = h.header(true);
-    frame.extend_from_slice(&[0x21, 0x22, 0x23]);
+    frame.extend_from_slice(tail);
     t.evaluations += 1;
     let cfg = Cfg { width: 1280, height: 720, ..Cfg::basic(VCodec::Vp9, None, h.profile % 2 == 0) };
     let case = || json!({"engine": "E2-c07-vp9", "frame": hex(&frame)});
@@ -989,7 +997,7 @@ pub fn check(ctx: &Ctx) -> i32 {
         &tally,
         Meta {
             level: "exploration",
-            rule: format!("H.264/H.265: every first keyframe that is a sequence of <= {max_units} NAL units over {{SPSa, SPSb, PPSa, PPSb, (VPSa, VPSb), IDR, SEI, AUD, non-IDR}} x 8 framings (start-code phase, leading garbage, trailing zeros), muxed, finished, and the avcC/hvcC compared with the first parameter sets; keyframes whose first set of one type is 65535 / 65536 / 70000 bytes long with a normal second one of that type before or after it (refused, or the first one carried); AV1: {n_av1} syntactically valid sequence headers produced by a spec-5.5 bit writer (branch product of the header syntax{}) x {LAYOUTS} OBU layouts through extract_av1_config, and through muxer+finish+reader for {}; VP9: {n_vp9} headers of the accepted form; audio: {n_audio} (codec, rate, channels) combinations; fragmented init segments: {n_init} builder/FragmentConfig combinations (parameter-set lengths 0, 1, 4, 255, 256; three dimensions); histories: per codec 7 kinds of first attempt (negative, NaN, overflowing composition offset, not a keyframe, infinite DTS, PTS far before DTS, none) x 4^3 configuration variants for (attempt, next keyframe, later keyframe), sample entry compared with the one of the first accepted keyframe alone. Expected values are known by construction (the generator wrote them). Distinct by the resulting sample entry bytes.", if ctx.thorough { ", full product" } else { ", every pair of sections in full product" }, if ctx.thorough { "every header" } else { "a section-default subset" }),
+            rule: format!("H.264/H.265: every first keyframe that is a sequence of <= {max_units} NAL units over {{SPSa, SPSb, PPSa, PPSb, (VPSa, VPSb), IDR, SEI, AUD, non-IDR}} x 8 framings (start-code phase, leading garbage, trailing zeros), muxed, finished, and the avcC/hvcC compared with the first parameter sets; keyframes whose first set of one type is 65535 / 65536 / 70000 bytes long with a normal second one of that type before or after it (refused, or the first one carried); AV1: {n_av1} syntactically valid sequence headers produced by a spec-5.5 bit writer (branch product of the header syntax{}) x {LAYOUTS} OBU layouts through extract_av1_config, and through muxer+finish+reader for {}; VP9: {n_vp9} headers of the accepted form x 5 continuations (compressed data, none, single flag-like bytes); audio: {n_audio} (codec, rate, channels) combinations; fragmented init segments: {n_init} builder/FragmentConfig combinations (parameter-set lengths 0, 1, 4, 255, 256; three dimensions); histories: per codec 7 kinds of first attempt (negative, NaN, overflowing composition offset, not a keyframe, infinite DTS, PTS far before DTS, none) x 4^3 configuration variants for (attempt, next keyframe, later keyframe), sample entry compared with the one of the first accepted keyframe alone. Expected values are known by construction (the generator wrote them). Distinct by the resulting sample entry bytes.", if ctx.thorough { ", full product" } else { ", every pair of sections in full product" }, if ctx.thorough { "every header" } else { "a section-default subset" }),
             bound: format!("<= {max_units} NAL units per keyframe; AV1 field domains as listed in DESIGN.md"),
             exhaustive: true,
             assumptions: vec!["the AV1 bit writer (oracle/src/frames.rs) follows AV1 spec 5.5; it is the source of truth for expected fields".into(), "vpcC values are judged positionally when the record is in muxide's 8-byte layout (the layout itself is C19's finding)".into()],
